@@ -6,7 +6,8 @@ impl HeapCellValue {
     pub uninterp spec fn tag(&self) -> HeapCellValueTag;
     pub uninterp spec fn val(&self) -> u64;
     #[verifier::external_body] pub fn get_tag(self) -> (r: HeapCellValueTag) ensures r == self.tag() { unimplemented!() }
-    #[verifier::external_body] pub fn get_value(self) -> (r: u64) ensures r == self.val() { unimplemented!() }
+    // (cell payloads have 56 bits)
+    #[verifier::external_body] pub fn get_value(self) -> (r: u64) ensures r == self.val(), r < 0x100_0000_0000_0000 { unimplemented!() }
 }
 impl Clone for HeapCellValueTag { #[verifier::external_body] fn clone(&self) -> (r: Self) ensures r == *self { unimplemented!() } }
 impl Copy for HeapCellValueTag {}
@@ -75,3 +76,25 @@ impl MachineState {
     // `self.deref_mut()` of the Unifier trait object
     pub fn deref_mut(&mut self) -> (r: &mut MachineState) ensures *r == *old(self), *final(self) == *final(r) { self }
 }
+
+// ---- string iteration
+pub struct HeapPStrIter<'a> { pub heap: &'a Heap }
+#[verifier::external_body] pub struct StrLen { _p: usize }
+impl StrLen { pub uninterp spec fn n(&self) -> int; #[verifier::external_body] pub fn len(&self) -> (r: usize) ensures r == self.n() { unimplemented!() } }
+pub struct HeapStringScan { pub string: StrLen, pub tail_idx: usize }
+impl Heap {
+    // text length and tail cell of the packed string at byte `loc` (unit heap / pstrcmp prove the layout)
+    pub uninterp spec fn str_len(&self, loc: int) -> int;
+    pub uninterp spec fn scan_tail(&self, loc: int) -> int;
+    #[verifier::external_body]
+    pub fn scan_slice_to_str(&self, loc: usize) -> (r: HeapStringScan) ensures r.string.n() == self.str_len(loc as int), r.tail_idx == self.scan_tail(loc as int) { unimplemented!() }
+}
+// dereferencing (binding chains) and the character an atom cell stands for
+pub uninterp spec fn resolve(heap: &Heap, c: HeapCellValue) -> HeapCellValue;
+#[verifier::external_body] pub fn heap_bound_deref(heap: &Heap, c: HeapCellValue) -> (r: HeapCellValue) ensures r == deref_of(heap, c) { unimplemented!() }
+pub uninterp spec fn deref_of(heap: &Heap, c: HeapCellValue) -> HeapCellValue;
+#[verifier::external_body] pub fn heap_bound_store(heap: &Heap, c: HeapCellValue) -> (r: HeapCellValue) ensures r == store_of(heap, c) { unimplemented!() }
+pub uninterp spec fn store_of(heap: &Heap, c: HeapCellValue) -> HeapCellValue;
+pub uninterp spec fn char_of(c: HeapCellValue) -> Option<char>;
+impl HeapCellValue { #[verifier::external_body] pub fn as_char(self) -> (r: Option<char>) ensures r == char_of(self) { unimplemented!() } }
+#[verifier::external_body] pub fn debug_assert_shim(b: bool) { unimplemented!() }
